@@ -166,6 +166,33 @@ var malformedHeads = []MalType{
 	ls(sy("fn"), nil, 2), ls(sy("fn"), vc(sy("a"), sy("&"), sy("b"), sy("c")), sy("b")), kw("k"), vc(1), sy("zz"),
 }
 
+// parameter lists the binder must refuse (or accept) without panicking
+var badParams = []MalType{
+	vc(sy("&"), 5), vc(sy("a"), sy("&"), "rest"), vc(sy("a"), sy("&"), vc(sy("b"), sy("c"))), vc(sy("&")), vc(sy("&"), sy("&")),
+	vc(1), vc("s"), vc(vc(sy("a"))), vc(sy("a"), sy("&"), sy("b"), sy("c")), vc(sy("&"), sy("a"), sy("b")), vc(kw("k")), vc(nil),
+	vc(sy("a"), sy("a")), vc(sy("&"), nil), vc(sy("&"), kw("k")), vc(sy("a"), 1), vc(sy("a"), sy("&"), nil), ls(sy("&"), 5),
+	ls(sy("a"), sy("&"), ls(sy("b"))), vc(sy("a"), sy("&"), sy("&")), vc(sy("a"), sy("b"), sy("&"), 7),
+	vc(sy("&"), HashMap{Val: map[string]MalType{}}), vc(sy("&"), ls()), vc(true), vc(sy("a"), sy("&"), sy("r")),
+}
+
+func badParamCalls(p MalType, args []MalType) []MalType {
+	f := ls(sy("fn"), p, 1)
+	fr := ls(sy("fn"), p, sy("a"))
+	call := func(h MalType) MalType { return List{Val: append([]MalType{h}, args...)} }
+	out := []MalType{
+		call(f), call(fr),
+		call1("apply", f, vc(args...)),
+		ls(sy("let"), vc(sy("g"), f), call(sy("g"))),
+		ls(sy("do"), ls(sy("defmacro"), sy("bm"), f), call(sy("bm"))),
+		ls(sy("do"), ls(sy("def"), sy("bf"), f), call(sy("bf"))),
+		List{Val: append([]MalType{sy("swap!"), call1("atom", 1), f}, args...)},
+	}
+	if len(args) == 1 {
+		out = append(out, call1("map", f, vc(1, 2)), call1("update", HashMap{Val: map[string]MalType{kw("a"): 1}}, kw("a"), f))
+	}
+	return out
+}
+
 func malformedCases(r *rng, n int, tier string, emit func(MalType)) {
 	// exhaustive: every head with 0, 1 and 2 operands of every kind
 	for _, h := range malformedHeads {
@@ -355,6 +382,25 @@ func (g *qqGen) macroProgram() (defs []MalType, callForm MalType) {
 			ls(sy("or"), call1("trace!", nil), call1("trace!", 3), call1("trace!", 4)),
 			ls(sy("and"), call1("trace!", 1), call1("trace!", nil), call1("trace!", 4)),
 		}[r.intn(5)]
+	}
+	// the macro flag lives on the VALUE, not on the name: the same call through another binding of the macro
+	// (def alias, let alias, function parameter), or with the macro's name shadowed by a local function
+	if cl, ok := callForm.(List); ok && len(cl.Val) > 0 && r.chance(1, 4) {
+		if h, ok := cl.Val[0].(Symbol); ok && h.Val != "try" && h.Val != "list" {
+			args := cl.Val[1:]
+			via := func(name string) MalType { return List{Val: append([]MalType{sy(name)}, args...)} }
+			switch r.intn(4) {
+			case 0:
+				defs = append(defs, ls(sy("def"), sy("m2"), h))
+				callForm = via("m2")
+			case 1:
+				callForm = ls(sy("let"), vc(sy("mm"), h), via("mm"))
+			case 2:
+				callForm = ls(ls(sy("fn"), vc(sy("mm")), via("mm")), h)
+			default:
+				callForm = ls(sy("let"), vc(h, ls(sy("fn"), vc(sy("&"), sy("xs")), call1("count", sy("xs")))), via(h.Val))
+			}
+		}
 	}
 	return
 }
@@ -594,7 +640,34 @@ func (g *tailGen) wrap(e MalType, depth int) MalType {
 		return e
 	}
 	inner := g.wrap(e, depth-1)
-	switch g.r.intn(9) {
+	switch g.r.intn(12) {
+	case 9:
+		// one-armed `if`: the then-branch is a tail position too
+		return ls(sy("if"), []MalType{true, 1, call1("<", 0, 1), kw("k")}[g.r.intn(4)], inner)
+	case 10:
+		// single-form do / body-only let / one-clause cond / single-operand and, or
+		switch g.r.intn(5) {
+		case 0:
+			return ls(sy("do"), inner)
+		case 1:
+			return ls(sy("let"), vc(), inner)
+		case 2:
+			return ls(sy("cond"), true, inner)
+		case 3:
+			return ls(sy("and"), inner)
+		default:
+			return ls(sy("or"), inner)
+		}
+	case 11:
+		// closures of every parameter shape, applied in tail position
+		switch g.r.intn(3) {
+		case 0:
+			return ls(ls(sy("fn"), vc(sy("p"), sy("q")), inner), 1, 2)
+		case 1:
+			return ls(ls(sy("fn"), vc(sy("p"), sy("&"), sy("more")), inner), 1)
+		default:
+			return ls(sy("let"), vc(sy("k"), ls(sy("fn"), vc(), inner)), ls(sy("k")))
+		}
 	case 0:
 		return ls(sy("do"), call1("+", 1, 1), inner)
 	case 1:
@@ -791,6 +864,30 @@ func init() {
 			// every error is an ordinary lisp error that try/catch can handle
 			emit(evalPayloadChild(ls(sy("try"), f, ls(sy("catch"), sy("e"), kw("caught")))))
 		})
+		// closures / macros with malformed parameter lists, CALLED (the binder runs at call time) with 0‥3
+		// arguments through every application route
+		for _, p := range badParams {
+			for k := 0; k <= 3; k++ {
+				args := []MalType{1, "s", vc(2)}[:k]
+				for _, f := range badParamCalls(p, args) {
+					emit(evalPayloadChild(f))
+					emit(evalPayloadChild(ls(sy("try"), f, ls(sy("catch"), sy("e"), kw("caught")))))
+				}
+			}
+		}
+		// a context that is already done (or ends after 1‥3 polls) when EVAL is entered with a form of every
+		// kind — scalars included: the "timeout" error must be a returned error as well
+		for _, a := range operandKinds {
+			for c := 0; c <= 1; c++ {
+				emit(evalPayloadChildC(a, c))
+			}
+			for _, h := range []MalType{sy("do"), sy("if"), sy("list"), sy("+"), sy("let"), sy("try"), sy("quasiquote"), ls(sy("fn"), vc(sy("q")), sy("q"))} {
+				for c := 0; c <= 3; c++ {
+					emit(evalPayloadChildC(ls(h, a), c))
+					emit(evalPayloadChildC(ls(h, a, a), c))
+				}
+			}
+		}
 	}})
 
 	register("qq", &evalEngine{gen: func(r *rng, n int, tier string, emit func(string)) {
